@@ -147,6 +147,7 @@ package ast
 //@   modifies bl.currentStack.values, bl.err
 //@   ensures[latch] old(bl.err) != nil ==> bl.err != nil
 //@   ensures[usable] bl.err == nil ==> result != nil && ref(result) != 0
+//@   ensures[no-error-means-top] bl.err == nil ==> old(len(bl.currentStack.values)) > 0 && result == old(bl.currentStack.values[len(bl.currentStack.values)-1])
 //@   ensures[top] old(bl.err) == nil && old(len(bl.currentStack.values)) > 0 ==> bl.err == nil && result == old(bl.currentStack.values[len(bl.currentStack.values)-1]) && len(bl.currentStack.values) == old(len(bl.currentStack.values)) - 1
 //@   ensures[rest-kept] forall(i, 0 <= i && i < len(bl.currentStack.values) ==> bl.currentStack.values[i] == old(bl.currentStack.values[i]))
 //@ func (*ToBoltListener).peekStack
